@@ -4,10 +4,26 @@
 pub mod tokenizer {
 use super::*;
 use std::str::Chars;
-//@item file=tokenizer.rs kind=enum name=TokenKind derive=PartialEq
-//@item file=tokenizer.rs kind=struct name=ElementToken derive=PartialEq
+//@item file=tokenizer.rs kind=enum name=TokenKind
+//@item file=tokenizer.rs kind=struct name=ElementToken
 //@item file=tokenizer.rs kind=struct name=Token
 //@item file=tokenizer.rs kind=enum name=State
+
+/// stand-in for `#[derive(PartialEq)]` on TokenKind (the derive is dropped by the extraction): equal variants with equal fields
+impl<'a, 'b> vstd::std_specs::cmp::PartialEqSpecImpl for TokenKind<'a, 'b> {
+    open spec fn obeys_eq_spec() -> bool { true }
+    open spec fn eq_spec(&self, other: &Self) -> bool {
+        match (*self, *other) {
+            (TokenKind::Text, TokenKind::Text) => true,
+            (TokenKind::Element(x), TokenKind::Element(y)) => x.delimiter_start@ == y.delimiter_start@ && x.delimiter_end@ == y.delimiter_end@,
+            _ => false,
+        }
+    }
+}
+impl<'a, 'b> PartialEq for TokenKind<'a, 'b> {
+    #[verifier::external_body]
+    fn eq(&self, other: &Self) -> (r: bool) { unimplemented!() }
+}
 
 /// ghost view of the automaton state: a partial delimiter match is the sequence of characters still expected
 pub enum GState { Text, DelimiterStart(Seq<char>), InDelimiter, DelimiterEnd(Seq<char>) }
@@ -77,5 +93,364 @@ pub open spec fn kind_view(k: Option<TokenKind>, ds: &str, de: &str) -> Option<b
     state_ok(r.1),
     r.0 matches Some(TokenKind::Element(e)) ==> e.delimiter_start == delimiter_start && e.delimiter_end == delimiter_end,
 //@end
+
+/// ghost view of a token (the text is described separately by tok_value_ok)
+pub struct GTok { pub is_element: bool, pub start: int, pub byte_start: int, pub end: int, pub byte_end: int }
+pub open spec fn tv(t: Token) -> GTok {
+    GTok { is_element: t.kind is Element, start: t.start as int, byte_start: t.byte_start as int, end: t.end as int, byte_end: t.byte_end as int }
+}
+pub open spec fn tvs(ts: Seq<Token>) -> Seq<GTok> { Seq::new(ts.len(), |i: int| tv(ts[i])) }
+/// the token's offsets are in bounds and on character boundaries (so `&source[byte_start..byte_end]` cannot panic)
+/// and an element token carries the configured delimiters. (vstd gives no usable postcondition for str slicing,
+/// so `value == source[byte_start..byte_end]` is NOT part of the contract.)
+pub open spec fn tok_ok(t: Token, b: Seq<u8>, ds: &str, de: &str) -> bool {
+    &&& t.byte_start <= t.byte_end <= b.len()
+    &&& cb(b, t.byte_start as int) && cb(b, t.byte_end as int)
+    &&& t.kind matches TokenKind::Element(e) ==> e.delimiter_start == ds && e.delimiter_end == de
+}
+pub open spec fn toks_ok(ts: Seq<Token>, b: Seq<u8>, ds: &str, de: &str) -> bool {
+    forall|i: int| 0 <= i < ts.len() ==> tok_ok(#[trigger] ts[i], b, ds, de)
+}
+/// C07: the tokens are non-empty, contiguous from character 0 to character `upto`, and their byte offsets are
+/// the byte offsets of their character offsets (so end - start is the number of characters of the slice)
+pub open spec fn tok_chain(ts: Seq<Token>, cs: Seq<char>, upto: int) -> bool {
+    &&& forall|i: int| 0 <= i < ts.len() ==> (#[trigger] ts[i]).start < ts[i].end <= cs.len()
+            && ts[i].byte_start == char_byte_pos(cs, ts[i].start as int) && ts[i].byte_end == char_byte_pos(cs, ts[i].end as int)
+    &&& forall|i: int| 0 <= i < ts.len() - 1 ==> (#[trigger] ts[i]).end == ts[i + 1].start
+    &&& ts.len() > 0 ==> ts[0].start == 0 && ts[ts.len() - 1].end == upto
+    &&& ts.len() == 0 ==> upto == 0
+}
+pub open spec fn no_adjacent_text(ts: Seq<Token>) -> bool {
+    forall|i: int| 0 <= i < ts.len() - 1 ==> !((#[trigger] ts[i]).kind is Text && ts[i + 1].kind is Text)
+}
+
+/// state of the scanning fold after the first n characters: (tokens, automaton state, byte_start, start)
+pub open spec fn scan(cs: Seq<char>, ds: Seq<char>, de: Seq<char>, n: int) -> (Seq<GTok>, GState, int, int)
+    decreases n,
+{
+    if n <= 0 { (Seq::empty(), GState::Text, 0, 0) } else {
+        let p = scan(cs, ds, de, n - 1);
+        let bp = char_byte_pos(cs, n - 1);
+        let st = get_state_spec(cs[n - 1], ds, de, p.1);
+        match st.0 {
+            Some(is_el) => (
+                if bp - p.2 > 0 { p.0.push(GTok { is_element: is_el, start: p.3, byte_start: p.2, end: n - 1, byte_end: bp }) } else { p.0 },
+                st.1, bp, n - 1),
+            None => (p.0, st.1, p.2, p.3),
+        }
+    }
+}
+/// tokens after the final flush
+pub open spec fn flushed(cs: Seq<char>, ds: Seq<char>, de: Seq<char>) -> Seq<GTok> {
+    let p = scan(cs, ds, de, cs.len() as int);
+    if cs.len() == 0 { p.0 } else {
+        let k = get_state_spec(' ', ds, de, p.1).0;
+        p.0.push(GTok { is_element: k == Some(true), start: p.3, byte_start: p.2, end: cs.len() as int, byte_end: encode_utf8(cs).len() as int })
+    }
+}
+/// adjacent text tokens merged (the last fold)
+pub open spec fn merged(ts: Seq<GTok>, n: int) -> Seq<GTok>
+    decreases n,
+{
+    if n <= 0 { Seq::empty() } else {
+        let acc = merged(ts, n - 1);
+        let cur = ts[n - 1];
+        if acc.len() > 0 && !acc.last().is_element && !cur.is_element {
+            acc.drop_last().push(GTok { end: cur.end, byte_end: cur.byte_end, ..acc.last() })
+        } else { acc.push(cur) }
+    }
+}
+pub open spec fn tokenize_spec(cs: Seq<char>, ds: Seq<char>, de: Seq<char>) -> Seq<GTok> {
+    merged(flushed(cs, ds, de), flushed(cs, ds, de).len() as int)
+}
+
+pub proof fn lemma_scan_step(cs: Seq<char>, ds: Seq<char>, de: Seq<char>, n: int)
+    requires 0 <= n,
+    ensures scan(cs, ds, de, n + 1) == ({
+        let p = scan(cs, ds, de, n);
+        let bp = char_byte_pos(cs, n);
+        let st = get_state_spec(cs[n], ds, de, p.1);
+        match st.0 {
+            Some(is_el) => (
+                if bp - p.2 > 0 { p.0.push(GTok { is_element: is_el, start: p.3, byte_start: p.2, end: n, byte_end: bp }) } else { p.0 },
+                st.1, bp, n),
+            None => (p.0, st.1, p.2, p.3),
+        }
+    }),
+    scan(cs, ds, de, 0) == (Seq::<GTok>::empty(), GState::Text, 0int, 0int),
+{}
+pub proof fn lemma_merged_step(ts: Seq<GTok>, n: int)
+    requires 0 <= n,
+    ensures merged(ts, n + 1) == ({
+        let acc = merged(ts, n);
+        let cur = ts[n];
+        if acc.len() > 0 && !acc.last().is_element && !cur.is_element {
+            acc.drop_last().push(GTok { end: cur.end, byte_end: cur.byte_end, ..acc.last() })
+        } else { acc.push(cur) }
+    }),
+    merged(ts, 0) == Seq::<GTok>::empty(),
+{}
+pub proof fn lemma_tvs_push(ts: Seq<Token>, t: Token)
+    ensures tvs(ts.push(t)) == tvs(ts).push(tv(t)),
+{ assert(tvs(ts.push(t)) =~= tvs(ts).push(tv(t))); }
+pub proof fn lemma_tvs_replace_last(ts: Seq<Token>, t: Token)
+    requires ts.len() > 0,
+    ensures tvs(ts.drop_last().push(t)) == tvs(ts).drop_last().push(tv(t)),
+{ assert(tvs(ts.drop_last().push(t)) =~= tvs(ts).drop_last().push(tv(t))); }
+pub proof fn lemma_chain_push(ts: Seq<Token>, t: Token, cs: Seq<char>, upto: int)
+    requires tok_chain(ts, cs, upto), t.start == upto, t.start < t.end <= cs.len(),
+        t.byte_start == char_byte_pos(cs, t.start as int), t.byte_end == char_byte_pos(cs, t.end as int),
+    ensures tok_chain(ts.push(t), cs, t.end as int),
+{
+    let r = ts.push(t);
+    assert forall|i: int| 0 <= i < r.len() - 1 implies (#[trigger] r[i]).end == r[i + 1].start by {
+        if i < ts.len() - 1 { assert(ts[i].end == ts[i + 1].start); }
+    }
+}
+pub proof fn lemma_chain_replace_last(ts: Seq<Token>, t: Token, cs: Seq<char>, upto: int, new_end: int)
+    requires tok_chain(ts, cs, upto), ts.len() > 0, t.start == ts.last().start, t.byte_start == ts.last().byte_start,
+        upto < new_end <= cs.len(), t.end == new_end, t.byte_end == char_byte_pos(cs, new_end),
+    ensures tok_chain(ts.drop_last().push(t), cs, new_end),
+{
+    let r = ts.drop_last().push(t);
+    assert forall|i: int| 0 <= i < r.len() - 1 implies (#[trigger] r[i]).end == r[i + 1].start by {
+        assert(ts[i].end == ts[i + 1].start);
+    }
+    assert forall|i: int| 0 <= i < r.len() implies (#[trigger] r[i]).start < r[i].end <= cs.len()
+            && r[i].byte_start == char_byte_pos(cs, r[i].start as int) && r[i].byte_end == char_byte_pos(cs, r[i].end as int) by {
+        if i < r.len() - 1 { assert(r[i] == ts[i]); } else { assert(ts[i].start < ts[i].end); }
+    }
+}
+pub proof fn lemma_toks_ok_push(ts: Seq<Token>, t: Token, b: Seq<u8>, ds: &str, de: &str)
+    requires toks_ok(ts, b, ds, de), tok_ok(t, b, ds, de),
+    ensures toks_ok(ts.push(t), b, ds, de),
+{
+    let r = ts.push(t);
+    assert forall|i: int| 0 <= i < r.len() implies tok_ok(#[trigger] r[i], b, ds, de) by {
+        if i < ts.len() { assert(tok_ok(ts[i], b, ds, de)); }
+    }
+}
+pub proof fn lemma_toks_ok_replace_last(ts: Seq<Token>, t: Token, b: Seq<u8>, ds: &str, de: &str)
+    requires toks_ok(ts, b, ds, de), tok_ok(t, b, ds, de), ts.len() > 0,
+    ensures toks_ok(ts.drop_last().push(t), b, ds, de),
+{
+    let r = ts.drop_last().push(t);
+    assert forall|i: int| 0 <= i < r.len() implies tok_ok(#[trigger] r[i], b, ds, de) by {
+        if i < ts.len() - 1 { assert(tok_ok(ts[i], b, ds, de)); }
+    }
+}
+pub proof fn lemma_no_adj_push(ts: Seq<Token>, t: Token)
+    requires no_adjacent_text(ts), ts.len() > 0 ==> !(ts.last().kind is Text && t.kind is Text),
+    ensures no_adjacent_text(ts.push(t)),
+{
+    let r = ts.push(t);
+    assert forall|i: int| 0 <= i < r.len() - 1 implies !((#[trigger] r[i]).kind is Text && r[i + 1].kind is Text) by {
+        if i < ts.len() - 1 { assert(!(ts[i].kind is Text && ts[i + 1].kind is Text)); }
+    }
+}
+pub proof fn lemma_no_adj_replace_last(ts: Seq<Token>, t: Token)
+    requires no_adjacent_text(ts), ts.len() > 0, t.kind is Text == ts.last().kind is Text,
+    ensures no_adjacent_text(ts.drop_last().push(t)),
+{
+    let r = ts.drop_last().push(t);
+    assert forall|i: int| 0 <= i < r.len() - 1 implies !((#[trigger] r[i]).kind is Text && r[i + 1].kind is Text) by {
+        assert(!(ts[i].kind is Text && ts[i + 1].kind is Text));
+    }
+}
+
+//@fn id=tokenize file=tokenizer.rs name=tokenize props=C01,C07,C08
+//@ret r
+//@requires
+    delimiter_start@.len() > 0,
+    delimiter_end@.len() > 0,
+//@ensures label=tokenize_exact props=C07,C08
+    tvs(r@) == tokenize_spec(source@, delimiter_start@, delimiter_end@),
+//@ensures label=tokens_are_source_slices props=C01,C07
+    toks_ok(r@, source.spec_bytes(), delimiter_start, delimiter_end),
+//@ensures label=tokens_partition_source props=C07
+    tok_chain(r@, source@, source@.len() as int),
+    no_adjacent_text(r@),
+//@fold 1 type="(Vec<Token<'a, 'b, 'c>>, State<'b, 'c>, usize, usize, usize)"
+//@fold 2 type="Vec<Token<'a, 'b, 'c>>"
+//@adapter 1 type="Option<(usize, char)>"
+//@desugar-for 1
+//@loop 1
+//@invariant_except_break
+    it_ok(__it1),
+    delimiter_start@.len() > 0, delimiter_end@.len() > 0,
+    0 <= __n <= source@.len() <= source.spec_bytes().len() <= isize::MAX,
+    source.spec_bytes() == encode_utf8(source@),
+    it_rem(__it1) =~= char_index_seq(source@).skip(__n),
+    state_ok(__acc1.1),
+    (tvs(__acc1.0@), sv(__acc1.1), __acc1.2 as int, __acc1.3 as int) == scan(source@, delimiter_start@, delimiter_end@, __n),
+    __acc1.4 == __n,
+    __acc1.3 <= __n && __acc1.2 == char_byte_pos(source@, __acc1.3 as int),
+    __n > 0 ==> __acc1.3 < __n,
+    toks_ok(__acc1.0@, source.spec_bytes(), delimiter_start, delimiter_end),
+    tok_chain(__acc1.0@, source@, __acc1.3 as int),
+//@loop-ensures
+    state_ok(__acc1.1),
+    (tvs(__acc1.0@), sv(__acc1.1), __acc1.2 as int, __acc1.3 as int) == scan(source@, delimiter_start@, delimiter_end@, source@.len() as int),
+    __acc1.4 == source@.len(),
+    __acc1.3 <= source@.len() && __acc1.2 == char_byte_pos(source@, __acc1.3 as int),
+    source@.len() > 0 ==> __acc1.3 < source@.len(),
+    toks_ok(__acc1.0@, source.spec_bytes(), delimiter_start, delimiter_end),
+    tok_chain(__acc1.0@, source@, __acc1.3 as int),
+//@decreases
+    IteratorSpec::decrease(&__it1)->0
+//@loop 2
+//@invariant_except_break
+    it_ok(__itA1),
+    0 <= __m <= source@.len(),
+    it_rem(__itA1) =~= char_index_seq(source@).skip(__m),
+    (__rA1 is Some) == (__m > 0),
+//@loop-ensures
+    (__rA1 is Some) == (source@.len() > 0),
+//@decreases
+    IteratorSpec::decrease(&__itA1)->0
+//@loop 3 iter=it3
+//@invariant
+    it3.seq() == __fl,
+    source.spec_bytes() == encode_utf8(source@),
+    source@.len() <= source.spec_bytes().len() <= isize::MAX,
+    toks_ok(__fl, source.spec_bytes(), delimiter_start, delimiter_end),
+    tok_chain(__fl, source@, source@.len() as int),
+    toks_ok(__acc2@, source.spec_bytes(), delimiter_start, delimiter_end),
+    tvs(__acc2@) == merged(tvs(__fl), it3.index@),
+    tok_chain(__acc2@, source@, if it3.index@ == 0 { 0 } else { __fl[it3.index@ - 1].end as int }),
+    no_adjacent_text(__acc2@),
+//@at body-start
+    hide(scan); hide(merged); hide(tok_chain); hide(toks_ok); hide(no_adjacent_text); hide(get_state_spec);
+    proof {
+        axiom_str_len_isize(source);
+        lemma_encode_ge(source@);
+        assert(source.spec_bytes() == encode_utf8(source@));
+    }
+//@at before "loop {" 1
+    let ghost mut __n: int = 0;
+    proof {
+        assert(char_index_seq(source@).skip(0) =~= char_index_seq(source@));
+        assert(tvs(Seq::<Token>::empty()) =~= Seq::<GTok>::empty());
+        lemma_char_pos_mono(source@, 0, 0);
+        lemma_scan_step(source@, delimiter_start@, delimiter_end@, 0);
+        reveal(tok_chain); reveal(toks_ok);
+    }
+//@at loop 1 start
+    let ghost __rest = it_rem(__it1);
+    let ghost __t0 = __acc1.0@;
+    let ghost __sp0 = __acc1.3 as int;
+//@at before "let (mut tokens, state, mut byte_start_pos, mut start_pos, current)"
+    proof {
+        assert(__rest[0] == __x1);
+        assert(__rest.drop_first() =~= char_index_seq(source@).skip(__n + 1));
+        lemma_char_pos_mono(source@, __sp0, __n);
+        lemma_char_pos_mono(source@, __n, source@.len() as int);
+        lemma_char_pos_boundary(source@, __n);
+        lemma_char_pos_boundary(source@, __sp0);
+        lemma_scan_step(source@, delimiter_start@, delimiter_end@, __n);
+    }
+//@at before "(tokens, next_state, byte_start_pos, start_pos, current + 1)"
+    proof {
+        if tokens@.len() > __t0.len() {
+            assert(tokens@ =~= __t0.push(tokens@.last()));
+            lemma_tvs_push(__t0, tokens@.last());
+            lemma_chain_push(__t0, tokens@.last(), source@, __sp0);
+            reveal(toks_ok);
+            let t = tokens@.last();
+            let b = source.spec_bytes();
+            assert(t.byte_start <= t.byte_end <= b.len());
+            assert(cb(b, t.byte_start as int) && cb(b, t.byte_end as int));
+            assert(t.kind matches TokenKind::Element(e) ==> e.delimiter_start == delimiter_start && e.delimiter_end == delimiter_end);
+            lemma_toks_ok_push(__t0, tokens@.last(), source.spec_bytes(), delimiter_start, delimiter_end);
+        } else if start_pos as int != __sp0 {
+            // zero-length segment: the boundary coincides with the previous one
+            assert(__sp0 == __n) by { if __sp0 < __n { lemma_char_pos_mono(source@, __sp0, __n); } }
+        }
+        __n = __n + 1;
+    }
+//@at before "let (token_kind, _) = get_state"
+    proof {
+        lemma_char_pos_mono(source@, start_pos as int, source@.len() as int);
+        lemma_char_pos_boundary(source@, start_pos as int);
+        lemma_char_pos_boundary(source@, source@.len() as int);
+    }
+//@at before "loop {" 2
+    let ghost mut __m: int = 0;
+    proof { assert(char_index_seq(source@).skip(0) =~= char_index_seq(source@)); }
+//@at loop 2 start
+    let ghost __rest2 = it_rem(__itA1);
+//@at before "__rA1 = Some(__xA1);"
+    proof {
+        assert(__rest2.drop_first() =~= char_index_seq(source@).skip(__m + 1));
+        __m = __m + 1;
+    }
+//@at before "if let Some(token) = additional_token {"
+    let ghost __t1 = tokens@;
+//@at after "tokens.push(token);"
+    proof {
+        assert(tokens@ =~= __t1.push(tokens@.last()));
+        lemma_tvs_push(__t1, tokens@.last());
+        lemma_chain_push(__t1, tokens@.last(), source@, start_pos as int);
+        reveal(toks_ok);
+        lemma_toks_ok_push(__t1, tokens@.last(), source.spec_bytes(), delimiter_start, delimiter_end);
+    }
+//@at before "for __x2 in"
+    let ghost __fl = tokens@;
+    proof {
+        assert(tvs(__fl) == flushed(source@, delimiter_start@, delimiter_end@));
+        assert(tvs(Seq::<Token>::empty()) =~= Seq::<GTok>::empty());
+        lemma_merged_step(tvs(__fl), 0);
+        assert(tok_chain(Seq::<Token>::empty(), source@, 0)) by { reveal(tok_chain); }
+        assert(toks_ok(Seq::<Token>::empty(), source.spec_bytes(), delimiter_start, delimiter_end)) by { reveal(toks_ok); }
+        assert(no_adjacent_text(Seq::<Token>::empty())) by { reveal(no_adjacent_text); }
+        if source@.len() == 0 { reveal(tok_chain); }
+    }
+//@at loop 3 start
+    let ghost __a0 = __acc2@;
+    let ghost __j = it3.index@;
+    proof {
+        lemma_merged_step(tvs(__fl), __j);
+        assert(tok_ok(__fl[__j], source.spec_bytes(), delimiter_start, delimiter_end)) by { reveal(toks_ok); }
+        assert(__fl[__j].start < __fl[__j].end <= source@.len() && __fl[__j].byte_end == char_byte_pos(source@, __fl[__j].end as int)
+            && __fl[__j].byte_start == char_byte_pos(source@, __fl[__j].start as int)
+            && (__j > 0 ==> __fl[__j - 1].end == __fl[__j].start) && (__j == 0 ==> __fl[__j].start == 0)) by { reveal(tok_chain); }
+        if __a0.len() > 0 {
+            assert(tok_ok(__a0.last(), source.spec_bytes(), delimiter_start, delimiter_end)) by { reveal(toks_ok); }
+            assert(__a0.last().start < __a0.last().end && __a0.last().byte_start == char_byte_pos(source@, __a0.last().start as int)
+                && __j > 0 && __a0.last().end == __fl[__j - 1].end) by { reveal(tok_chain); }
+            lemma_char_pos_mono(source@, __a0.last().start as int, __fl[__j].end as int);
+            lemma_char_pos_mono(source@, __fl[__j].end as int, source@.len() as int);
+            lemma_char_pos_boundary(source@, __fl[__j].end as int);
+        }
+    }
+//@at loop 3 end
+    proof {
+        if __acc2@.len() == __a0.len() + 1 {
+            assert(__acc2@ =~= __a0.push(__acc2@.last()));
+            lemma_tvs_push(__a0, __acc2@.last());
+            lemma_chain_push(__a0, __acc2@.last(), source@, if __j == 0 { 0 } else { __fl[__j - 1].end as int });
+            lemma_toks_ok_push(__a0, __acc2@.last(), source.spec_bytes(), delimiter_start, delimiter_end);
+            lemma_no_adj_push(__a0, __acc2@.last());
+        } else {
+            assert(__acc2@ =~= __a0.drop_last().push(__acc2@.last()));
+            lemma_tvs_replace_last(__a0, __acc2@.last());
+            lemma_chain_replace_last(__a0, __acc2@.last(), source@, __fl[__j - 1].end as int, __fl[__j].end as int);
+            lemma_toks_ok_replace_last(__a0, __acc2@.last(), source.spec_bytes(), delimiter_start, delimiter_end);
+            lemma_no_adj_replace_last(__a0, __acc2@.last());
+        }
+    }
+//@at after-loop 3
+    proof {
+        assert(tvs(__fl).len() == __fl.len());
+        if __fl.len() > 0 { assert(__fl[__fl.len() - 1].end == source@.len()) by { reveal(tok_chain); } }
+        else { reveal(tok_chain); }
+    }
+//@end
+
+pub proof fn lemma_encode_ge(c: Seq<char>)
+    ensures encode_utf8(c).len() >= c.len(),
+{
+    if c.len() > 0 { lemma_encode_nonempty(c); }
+}
 
 } // mod tokenizer
